@@ -94,7 +94,12 @@ def evaluate(ctx, label=""):
                            "no offending call, but the backend was not closed exactly once at the end"))
                 viol = _classify(c, bad)
                 what = viol + ": " + what
-                ctx.violation("c20-%s-%s" % (viol, scen.split(":")[0]), what,
+                key = "c20-%s-%s" % (viol, scen.split(":")[0])
+                # F-C20-1 (known finding) is only: a read past len() during a FAILING open of a file that was
+                # made shorter.  The same read in an open that succeeds gets its own key.
+                if key == "c20-read-beyond-len-open-bad-length" and '"outcome":"ok"' in m:
+                    key += "-but-opened"
+                ctx.violation(key, what,
                               {"scenario": m, "trace": _trace_excerpt(c, bad), "model_verdict": b,
                                "how_to_replay": "VERIF_SEED=%d ./check C20 --tier %s (harness/src/bin/c20.rs regenerates the scenario from the seed)" % (ctx.seed, ctx.tier)})
             if a != b:
